@@ -649,7 +649,9 @@ def execute(env, attr, init, prog, created=False, source=None):
                         for s_ in ref[2]: same = same[s_]
                 RESOLVE[0] = lambda ref: reals[json.dumps(ref)]
                 rerr = None
-                try: setattr(st['e'], attr, dec(v))
+                try:
+                    if op.get('via') == 'set': st['e'].set(**{attr: dec(v)})        # Entity.set(**kwargs): the other way to assign
+                    else: setattr(st['e'], attr, dec(v))
                 except Exception as ex: rerr = type(ex).__name__
                 RESOLVE[0] = lambda ref: copy.deepcopy(plains[json.dumps(ref)])
                 newval = same if same is not None else dec(v)
@@ -939,7 +941,7 @@ def random_program(env, rng, attr, nops, danger, created=False):
                         v = rng.choice([init, {'$t': [good(), good()]}, good(), [good(), None], None if False else [good()],
                                         {'$ref': ['attr', rng.choice(same_kind), []]}, {'$ref': ['obj2', rng.choice(same_kind), []]},
                                         {'$ref': ['var', live_[0]]} if live_ else [good()]])
-                    return [{'op': 'assign', 'v': v}]
+                    return [{'op': 'assign', 'v': v, 'via': rng.choice(['setattr', 'set'])}]
                 return [{'op': o}]
             ops = []
             live = sorted(v for v in mvars if isinstance(mvars[v], (list, dict)) and v not in stale)
@@ -1189,6 +1191,10 @@ def witness_programs():
     out.append(('assign(dict) then change', 'data', DOC, [{'op': 'assign', 'v': {'$d': [['k', [[]]]]}}, {'op': 'commit'}, {'op': 'take', 'var': 'y', 'path': ['k', 0]},
                 {'op': 'call', 't': 'lmut', 'n': 'append', 'var': 'y', 'v': 3}, {'op': 'flush'}, {'op': 'take', 'var': 'r', 'path': []},
                 {'op': 'call', 't': 'dmut', 'n': 'setitem', 'var': 'r', 'key': 'z', 'v': 1}], False))
+    out.append(('obj.set(attr=...) then change', 'data', DOC, [{'op': 'assign', 'via': 'set', 'v': {'$d': [['k', [[]]]]}}, {'op': 'commit'}, {'op': 'take', 'var': 'y', 'path': ['k', 0]},
+                {'op': 'call', 't': 'lmut', 'n': 'append', 'var': 'y', 'v': 3}], False))
+    out.append(('obj.set(array=...) then change', 'arr', [1, 2], [{'op': 'assign', 'via': 'set', 'v': [5, 6]}, {'op': 'flush'}, {'op': 'take', 'var': 'r', 'path': []},
+                {'op': 'call', 't': 'lmut', 'n': 'append', 'var': 'r', 'v': 7}], False))
     out.append(('assign(array) then change', 'arr', [1, 2], [{'op': 'assign', 'v': [5, 6]}, {'op': 'flush'}, {'op': 'take', 'var': 'r', 'path': []},
                 {'op': 'call', 't': 'lmut', 'n': 'append', 'var': 'r', 'v': 7}], False))
     # values taken from the session: an alias, a value of another attribute, a value of ANOTHER OBJECT (Pony copies them into
